@@ -595,7 +595,7 @@ def run(chk, p, t):
         "the job identity field of each result class (JOB_KEY table) is in 1-1 correspondence with the enqueue loop variable",
     ]
     ea = EffectAnalysis(p, t)
-    for fn in (rule_r1, rule_r2, rule_r3, rule_r4, rule_r5, rule_r6, rule_r7, rule_r8):
+    for fn in (rule_r1, rule_r2, rule_r3, rule_r4, rule_r5, rule_r6, rule_r7, rule_r8, rule_r9):
         rid = "C08.R" + fn.__name__[-1]
         if not chk.wants(rid):
             continue
@@ -624,6 +624,71 @@ def rule_r8(chk, p, t, ea):
     from rules.C19 import update_hop
 
     r.guard("update-hop", lambda: update_hop(r, p))
+
+
+def rule_r9(chk, p, t, ea):
+    from rsa.terms import inline_locals
+
+    r = chk.rule(
+        "C08.R9",
+        "the engine keeps every record a task-execution job hands back",
+        4,
+        "'every tasked sensor-target pair leaves exactly one record': TaskingEngine.saveObservations / "
+        "saveMissedObservations put what they are given into the per-step and the to-be-stored buffers - every `extend` "
+        "argument is the parameter itself or a copy of it that leaves out nothing but empty placeholders (a comprehension "
+        "whose only filter is the truthiness / not-None test of the element).  A filter that looks INSIDE the record "
+        "(its reason, sensor, target ...) makes a whole class of tasked attempts leave no trace; any other expression is "
+        "undecided",
+        "which records the jobs produce (C02.R5)",
+    )
+    eng = p.cls("resonaate.tasking.engine.engine_base.TaskingEngine")
+    n = 0
+    for mname in ("saveObservations", "saveMissedObservations"):
+        m = eng.methods.get(mname)
+        if m is None:
+            r.error(mname, "method not found")
+            continue
+        par = m.params[1]
+        exts = [c for c in walk_no_nested(m.node) if isinstance(c, ast.Call) and isinstance(c.func, ast.Attribute) and c.func.attr in ("extend", "append", "__iadd__") and unparse(c.func.value).startswith("self.")]
+        exts += [x for x in walk_no_nested(m.node) if isinstance(x, ast.AugAssign) and unparse(x.target).startswith("self.")]
+        if not exts:
+            r.violation(m.qualname, f"records-not-kept:{mname}", f"{mname} no longer adds its argument to a buffer of the engine", m.loc())
+            continue
+        for c in exts:
+            n += 1
+            arg = c.args[0] if isinstance(c, ast.Call) and c.args else getattr(c, "value", None)
+            buf = unparse(c.func.value) if isinstance(c, ast.Call) else unparse(c.target)
+            cons = f"{m.qualname}:{buf}"
+            v = inline_locals(m, arg)
+            verdict = None
+            if isinstance(v, ast.Name) and v.id == par:
+                verdict = ("ok", "the argument itself")
+            elif isinstance(v, ast.Call) and call_name(v) in ("list", "tuple") and len(v.args) == 1 and unparse(v.args[0]) == par:
+                verdict = ("ok", "a copy of the argument")
+            elif isinstance(v, (ast.ListComp, ast.GeneratorExp)) and len(v.generators) == 1 and unparse(v.generators[0].iter) == par and isinstance(v.generators[0].target, ast.Name) and isinstance(v.elt, ast.Name) and v.elt.id == v.generators[0].target.id:
+                el = v.generators[0].target.id
+                inside = []
+                for tst in v.generators[0].ifs:
+                    atoms = tst.values if isinstance(tst, ast.BoolOp) and isinstance(tst.op, ast.And) else [tst]
+                    for a in atoms:
+                        txt = unparse(a)
+                        if txt in (el, f"{el} is not None", f"bool({el})", f"{el} != None"):
+                            continue
+                        inside.append(txt)
+                if inside:
+                    verdict = ("violation", f"only records with `{' and '.join(inside)[:80]}` are kept")
+                else:
+                    verdict = ("ok", "every non-empty element")
+            elif isinstance(v, ast.Call) and call_name(v) == "filter":
+                verdict = ("violation", f"`{unparse(v)[:60]}`") if not (len(v.args) == 2 and isinstance(v.args[0], ast.Constant) and v.args[0].value is None) else ("ok", "filter(None, ...)")
+            if verdict is None:
+                r.undecided(cons, f"{mname} stores `{unparse(v)[:80]}`: not recognised as the whole argument", m.loc(c))
+            elif verdict[0] == "ok":
+                r.ok(cons, verdict[1], m.loc(c))
+            else:
+                r.violation(cons, f"records-dropped:{mname}:{verdict[1][:60]}", f"{mname} adds to {buf} a selection of what the job handed back: {verdict[1]}.  The tasked attempts whose record is filtered out leave neither an observation nor a miss - although the sensor was pointed and its last-tasked time moved", m.loc(c))
+    if n < 4:
+        r.error("stores", f"only {n} buffer stores found (4 confirmed by hand)")
 
 
 def _grouped_routing(step, p, t, r, pm):
